@@ -118,8 +118,9 @@ def consume (sl : Slot) (a : Ack) : Slot :=
   else
     -- malformed acknowledgement: DISCONNECT 0x81; a publish is sent again, a (un)subscribe fails
     match sl.phase with
-    | .relWaiting | .relWriting => { sl with phase := .relIdle, fast := none }
-    | _ => { sl with phase := .idle, fast := none }
+    | .idle | .writing | .waiting => { sl with phase := .idle, fast := none }
+    | .finished _ _ => { sl with fast := none }                      -- (not reachable: nothing is expected any more)
+    | _ => { sl with phase := .relIdle, fast := none }
 
 def Slot.onWrOk (sl : Slot) : Slot :=
   match sl.phase with
@@ -139,6 +140,13 @@ def Slot.onWrFail (sl : Slot) : Slot :=
   match sl.phase with
   | .writing => { sl with phase := .idle, fast := none }
   | .relWriting => { sl with phase := .relIdle, fast := none }
+  | _ => sl
+
+/-- a new connection: `resend_unanswered()` ends every reply wait with try_again, the operations queue their request again -/
+def Slot.onConnUp (sl : Slot) : Slot :=
+  match sl.phase with
+  | .waiting => { sl with phase := .idle }
+  | .relWaiting => { sl with phase := .relIdle }
   | _ => sl
 
 def Slot.onRx (sl : Slot) (a : Ack) : Slot :=
@@ -173,7 +181,7 @@ def request (s : S) (op pid : Nat) (k : Kind) (dup : Bool) (body : Nat) : Option
                     pidOf := upd s.pidOf op (some pid), bodyOf := upd s.bodyOf op (some body) }
     | some sl =>
       -- retransmission: same operation, same bytes, not after PUBREC, DUP = 1 if a transmission was written before
-      if sl.op ≠ op || sl.body ≠ body || (sl.okBefore && !dup) then none else
+      if sl.op ≠ op || s.bodyOf op ≠ some body || (sl.okBefore && !dup) then none else
       match sl.phase with
       | .idle | .waiting => some { s with slot := upd s.slot pid (some { sl with phase := .writing, fast := none }) }
       | _ => none
@@ -218,7 +226,7 @@ def step (s : S) : Ev → Option S
     if (s.known op).isSome then none else some { s with known := upd s.known op (some (k, n)) }
   | .connUp rm =>
     let lim := rm.getD MAX_LIMIT
-    some { s with connected := true, limit := lim, quota := lim, holders := [], wire := [] }
+    some { s with connected := true, limit := lim, quota := lim, holders := [], wire := [], slot := fun p => (s.slot p).map Slot.onConnUp }
   | .connDown => some { s with connected := false, holders := [], wire := [], quota := s.limit }
   | .wr => if s.writing then none else some { s with writing := true }
   | .pk p => if s.writing then stepPk s p else none
@@ -274,6 +282,28 @@ def Out.req : Out → Option (Nat × Nat)
   | .subscribe op pid _ => some (op, pid)
   | .unsubscribe op pid _ => some (op, pid)
   | _ => none
+
+/-- (operation, identity of the bytes with DUP masked) of a request packet -/
+def Out.reqBody : Out → Option (Nat × Nat)
+  | .publish op _ _ _ body => some (op, body)
+  | .subscribe op _ body => some (op, body)
+  | .unsubscribe op _ body => some (op, body)
+  | _ => none
+
+/-- a request packet of `op` with bytes `b` was written somewhere in the list -/
+def usesBody (hist : List Ev) (op b : Nat) : Prop := ∃ pk, Ev.pk pk ∈ hist ∧ pk.reqBody = some (op, b)
+
+def isWriteEv : Ev → Bool
+  | .wr | .wrOk | .wrFail => true
+  | _ => false
+
+/-- a PUBLISH of `op` is part of the write in progress -/
+def pendingPub (hist : List Ev) (op : Nat) : Prop :=
+  ∃ h1 q p d b mid, hist = h1 ++ Ev.pk (.publish op q p d b) :: mid ∧ ∀ e ∈ mid, isWriteEv e = false
+
+/-- a write that contained a PUBLISH of `op` has completed successfully -/
+def writtenOk (hist : List Ev) (op : Nat) : Prop :=
+  ∃ h1 q p d b mid h2, hist = h1 ++ Ev.pk (.publish op q p d b) :: mid ++ Ev.wrOk :: h2 ∧ ∀ e ∈ mid, isWriteEv e = false
 
 /-- the event is a completion of operation `op` -/
 def isDoneEv (op : Nat) : Ev → Prop
